@@ -46,6 +46,22 @@ DualIsTree == pc = "picked" /\ LastContaining(Triangulate(rs), s) # 0 =>
                  IN Cardinality(DualPairs(adj)) = Len(ts) - 1
                     /\ \A t \in DOMAIN ts : CD(LastContaining(ts, s), t, adj, Len(ts), {}).found
 
+\* --- the merged polygon (the barriers of the spline fitter)
+Poly == MergeRects(rs)
+RECURSIVE Shoelace(_, _)
+Shoelace(pts, i) == IF i > Len(pts) THEN 0
+                    ELSE LET a == pts[i] b == pts[(i % Len(pts)) + 1] IN a[1] * b[2] - b[1] * a[2] + Shoelace(pts, i + 1)
+\* a closed rectilinear outline with the corridor's area whose sides all lie in the corridor, alternate between vertical
+\* and horizontal except where a chain runs straight on, and never have length zero; it fits the array the code reserves
+PolygonIsOutline == rs # <<>> =>
+    /\ Len(Poly) <= 4 * Len(rs) /\ Len(Poly) >= 4
+    /\ \A i \in DOMAIN Poly : LET sd == PolySides(Poly)[i] IN
+           /\ sd[1] # sd[2] /\ (sd[1][1] = sd[2][1] \/ sd[1][2] = sd[2][2])
+           /\ SegInside(sd[1], sd[2], rs)
+    /\ Shoelace(Poly, 1) = -RectArea2(rs, 1)          \* counterclockwise on screen = negative in a y-down frame
+\* every reflex corner of the corridor (the only places a geodesic can bend) is a vertex of the outline
+CornersOnOutline == rs # <<>> => \A v \in Corners(rs) : \E i \in DOMAIN Poly : Poly[i] = v
+
 \* --- the funnel
 Returns == pc = "picked" => Res.bad = ""
 EndToStart == pc = "picked" => Len(Res.path) >= 2 /\ Res.path[1] = e /\ Res.path[Len(Res.path)] = s
